@@ -333,6 +333,48 @@ def check(repo: Repo, run: Run) -> None:
                                                        "its top-level operator binds looser than the `&&` the clause is joined with, so a sibling clause captures part of it"),
                    str(mod.path))
         run.floor("C18.B8", n8, 15)
+    # B9: the fields of those templates are filled with the operands value_to_cel() is given.  An operand is pasted
+    # next to `==`, `.contains(`, `!` ...: it has to be a primary / member expression.  An operand *built* at the call
+    # site as text (f-string, concatenation, format) whose skeleton - holes replaced by atoms - parses as anything
+    # looser (a bare `c ? a : b`, `a || b`, `a + b`) is torn apart by the template's operator and by the joins.
+    from ..core.paths import PathWalker as _PW
+
+    xcls = mod.cls("C7N_Rewriter")
+    n9 = 0
+    for mname9, fn9 in sorted(class_methods(xcls).items()):
+        if not any(isinstance(c, ast.Call) and (dotted(c.func) or "").endswith(("value_to_cel", "value_from_to_cel")) for c in ast.walk(fn9)):
+            continue
+        try:
+            paths9 = _PW(mod, xcls).paths(fn9)
+        except OverflowError:
+            run.inconclusive("C18.B9", f"{mname9}", "too many paths")
+            continue
+        seen9 = set()
+        for p9 in paths9:
+            for c in p9.calls:
+                if not (isinstance(c, ast.Call) and (dotted(c.func) or "").endswith(("value_to_cel", "value_from_to_cel")) and c.args):
+                    continue
+                a0 = strip_cast(c.args[0])
+                skeleton = None
+                if isinstance(a0, ast.JoinedStr):
+                    skeleton = "".join(v.value if isinstance(v, ast.Constant) else "F0" for v in a0.values)
+                elif isinstance(a0, ast.Call) and isinstance(a0.func, ast.Attribute) and a0.func.attr == "format" and isinstance(a0.func.value, ast.Constant) and isinstance(a0.func.value.value, str):
+                    skeleton = FMT_FIELD.sub("F0", a0.func.value.value)
+                elif isinstance(a0, ast.BinOp) and isinstance(a0.op, ast.Mod) and isinstance(a0.left, ast.Constant) and isinstance(a0.left.value, str):
+                    skeleton = _re.sub(r"%[sdr]", "F0", a0.left.value)
+                if skeleton is None or skeleton in seen9:
+                    continue
+                seen9.add(skeleton)
+                n9 += 1
+                c9 = parse_class(g, skeleton)
+                if c9 is None:
+                    continue  # not CEL: B4 / C19.V2
+                run.ob("C18.B9", f"{mname9}|operand `{skeleton[:40]}`", RANK[c9] >= RANK["UNARY"],
+                       f"{mname9} builds the operand `{skeleton[:60]}` ({c9}) and hands it to value_to_cel: " +
+                       ("it binds tighter than every operator of the op templates" if RANK[c9] >= RANK["UNARY"] else
+                        "pasted into `{0} == {1}` and into the `&&` / `||` joins it is regrouped (`has(k) ? k : d == v && A` is `has(k) ? k : ((d == v) && A)`); it needs parentheses"),
+                       mod.loc(c))
+    run.unit("C18.B9.built_operands", n9)
     # B5 -----------------------------------------------------------------
     for b in branches:
         bad = [c for c in b["calls"] if c != "level + 1"]
